@@ -31,11 +31,11 @@ def _cvc5(smt2: str, ms: int):
         os.unlink(path)
 
 
-def check_sat(assertions, ms: int = QUICK_MS, use_cvc5: bool = True):
+def check_sat(assertions, ms: int = QUICK_MS, use_cvc5: bool = True, seed: int = 7):
     """-> (status in {'sat','unsat','unknown'}, model or None, seconds, backend)"""
     s = z3.Solver()
     s.set("timeout", ms)
-    s.set("random_seed", 7)
+    s.set("random_seed", seed)
     for a in assertions:
         s.add(a)
     t = time.time()
@@ -54,9 +54,9 @@ def check_sat(assertions, ms: int = QUICK_MS, use_cvc5: bool = True):
     return "unknown", None, dt, "z3"
 
 
-def prove(hyps, goal, ms: int = QUICK_MS, use_cvc5: bool = True):
+def prove(hyps, goal, ms: int = QUICK_MS, use_cvc5: bool = True, seed: int = 7):
     """validity of  hyps => goal.  -> (verdict in proved/refuted/undecided, model, secs, backend)"""
-    st, m, dt, be = check_sat(list(hyps) + [z3.Not(goal)], ms, use_cvc5)
+    st, m, dt, be = check_sat(list(hyps) + [z3.Not(goal)], ms, use_cvc5, seed)
     return {"unsat": "proved", "sat": "refuted", "unknown": "undecided"}[st], m, dt, be
 
 
